@@ -42,7 +42,8 @@ Record c08_case := {
   k_d       : Z;                        (* leaf default *)
   k_shapes  : list (option Z);          (* shape of the fibers of each level, top to bottom *)
   k_active  : option (Z * Z);           (* explicit active range of the root fiber *)
-  k_depth   : nat;                      (* split depth *)
+  k_depth   : nat;                      (* the depth= argument *)
+  k_rankid  : option nat;               (* the rankid= argument: index of the named rank *)
   k_tensor  : bool;                     (* through Tensor.splitXXX *)
   k_resplit : option sparams            (* every partition split again (depth 0) *)
 }.
@@ -104,19 +105,26 @@ Fixpoint obs_depth (split : splitter) (c : c08_case) (k lev : nat) (t : tree) : 
     end
   end.
 
-Definition enc_id (x : Z * option Z) : V :=
-  match snd x with Some b => VL [VZ (fst x); VZ b] | None => VL [VZ (fst x)] end.
+Definition enc_id (r : rid) : V := VL (map VZ r).
 
 Definition shapes_Z (c : c08_case) : list Z :=
   map (fun o => match o with Some z => z | None => 0 end) (k_shapes c).
 
+(* the rank that is split *)
+Definition k_eff (c : c08_case) : nat := eff_depth (k_rankid c) (k_depth c).
+
+(* tensor entry: rank ids, shape and default of the result, its tree, and the bookkeeping of a
+   second split that names the new lower rank "<id>.0" *)
 Definition obs_case (split : splitter) (c : c08_case) : V :=
-  match obs_depth split c (k_depth c) O (k_tree c) with
+  match obs_depth split c (k_eff c) O (k_tree c) with
   | None => Verr 3
   | Some v =>
     if k_tensor c
-    then VL [VL (map enc_id (split_ids (k_depth c) 0 (length (k_shapes c))));
-             VL (map VZ (split_shape (k_depth c) (shapes_Z c))); VZ (k_d c); v]
+    then let ids1 := split_ids (k_eff c) (ids0 (length (k_shapes c))) in
+         let sh1 := split_shape (k_eff c) (shapes_Z c) in
+         VL [VL (map enc_id ids1); VL (map VZ sh1); VZ (k_d c); v;
+             VL [VL (map enc_id (split_ids (S (k_eff c)) ids1));
+                 VL (map VZ (split_shape (S (k_eff c)) sh1))]]
     else v
   end.
 
@@ -255,7 +263,7 @@ Fixpoint wf_depth (c : c08_case) (k lev : nat) (t : tree) : bool :=
 (* re-splits: only of absolute-coordinate partitions, and (see C08SplitCheckP) kept out of
    the proved region: checked by the oracle *)
 Definition c08_wf (c : c08_case) : bool :=
-  wf_params (k_sp c) && wf_depth c (k_depth c) O (k_tree c) &&
+  wf_params (k_sp c) && wf_depth c (k_eff c) O (k_tree c) &&
   match k_resplit c with None => true | Some sp2 => wf_params sp2 && negb (sp_rel (k_sp c)) end.
 
 Definition c08_holds (c : c08_case) (o : V) : bool :=
